@@ -1041,7 +1041,9 @@ func replay(c *vh.Ctx, m *vh.Model, file string) {
 	case "decode", "handle":
 		checkDatagram(c, m, "replay/decode", bl("netcompat"), vh.UnHex(str("buf")))
 	case "child-case":
-		startChild(c, str("case")).finish(c)
+		ch := startChild(c, str("case"))
+		ch.model = m
+		ch.finish(c)
 	case "queue-deliver":
 		pm, err := aqua.VerifNewPM(20)
 		if err != nil {
@@ -1117,6 +1119,7 @@ func main() {
 		goConsts(), m.Ask("consts"))
 	t0 := time.Now()
 	child := startChild(c, "")
+	child.model = m
 	finishHandshake := handshake(c, m)
 	th := time.Now()
 	frames(c, m)
